@@ -507,8 +507,10 @@ impl FarmGen {
 
     fn gen_config(&mut self, w: &World, f: &FObs) -> Option<Op> {
         let sender = if self.rng.gen_range(0..4) == 0 { self.user(w) } else { w.owner.clone() };
-        let k = self.rng.gen_range(0..7);
+        let k = self.rng.gen_range(0..8);
         Some(fm_config_op(&sender, |p| match k {
+            // the fee collector may be the contract or a plain account, and changes hands
+            7 => p.fee_collector_addr = Some(if self.rng.gen_bool(0.5) { w.fc.to_string() } else { w.fc2.to_string() }),
             0 => p.emergency_unlock_penalty = Some(*[Decimal::zero(), Decimal::percent(2), Decimal::percent(10), Decimal::percent(50), Decimal::percent(100), Decimal::percent(101)].choose(&mut self.rng).unwrap()),
             1 => p.create_farm_fee = Some(*[&coin(0, "uom"), &coin(1000, "uom"), &coin(500, "uusdt"), &coin(0, "uusdt")].choose(&mut self.rng).unwrap()).cloned(),
             2 => p.max_concurrent_farms = Some(f.cfg.max_concurrent_farms + self.rng.gen_range(0..2) - if self.rng.gen_range(0..6) == 0 { 1 } else { 0 }),
